@@ -378,10 +378,42 @@ def _two_mirror(ct, tier, seed):
         if fin:
             note('C06.runtime.two_mirror_every_ray_meets_the_image_point', float(np.max(np.hypot(x, y))) <= 1e-9 * f1, 'max radius %.3e' % np.max(np.hypot(x, y)), inputs)
             note('C06.runtime.two_mirror_equal_optical_paths', float(np.ptp(opl)) <= 1e-9 * f1, 'spread %.3e' % np.ptp(opl), inputs)
+    # round 7: an ellipsoidal mirror *immersed* in a medium of index n0 images one geometric focus onto the other; both legs are
+    # in that medium, so every optical path is n0 * 2a (a mirror that leaves the rays in another medium than it found them in
+    # keeps the spot perfect but spreads the optical paths)
+    from optiland.materials import IdealMaterial
+    for i in range(4 if tier == 'quick' else 24):
+        a_ = rng.uniform(60, 150)
+        c_ = a_ * rng.uniform(0.2, 0.6)
+        n0 = (1.0, 1.33, 1.5, 1.7)[i % 4]
+        epd = a_ * rng.uniform(0.2, 0.6)
+        L = Optic()
+        L.add_surface(index=0, thickness=a_ + c_, material=IdealMaterial(n0))
+        L.add_surface(index=1, radius=-(a_ * a_ - c_ * c_) / a_, conic=-(c_ / a_) ** 2, thickness=-(a_ - c_), material='mirror', is_stop=True)
+        L.add_surface(index=2)
+        L.set_aperture('EPD', epd)
+        L.set_field_type('object_height')
+        L.add_field(y=0)
+        L.add_wavelength(0.55, is_primary=True)
+        inputs = {'kind': 'immersed ellipsoid, far focus -> near focus', 'a': a_, 'c': c_, 'n0': n0, 'EPD': epd}
+        try:
+            L.trace(0, 0, 0.55, num_rays=4, distribution='hexapolar')
+        except Exception as ex:
+            note('C06.runtime.immersed_ellipsoid_traces', False, '%s: %s' % (type(ex).__name__, ex), inputs)
+            continue
+        sg = L.surface_group
+        x, y, opl = sg.x[-1], sg.y[-1], sg.opd[-1]
+        cases += 1
+        fin = bool(np.all(np.isfinite(x)) and np.all(np.isfinite(opl)))
+        note('C06.runtime.immersed_ellipsoid_every_ray_reaches_the_image_surface', fin, 'x %s' % (x[:3],), inputs)
+        if fin:
+            note('C06.runtime.immersed_ellipsoid_every_ray_meets_the_image_point', float(np.max(np.hypot(x, y))) <= 1e-9 * a_, 'max radius %.3e' % np.max(np.hypot(x, y)), inputs)
+            note('C06.runtime.immersed_ellipsoid_optical_paths_are_n0_times_2a', float(np.max(np.abs(opl - n0 * 2 * a_))) <= 1e-9 * a_,
+                 'optical paths %s, n0*2a = %.9g' % (np.round(opl[:4], 9), n0 * 2 * a_), inputs)
     return {'contract': ct.name, 'functions': ct.functions, 'props': ct.props,
             'symbolic': {'clauses': clauses, 'paths': 0, 'errors': [], 'solver_s': 0.0, 'samples': [], 'wd_assumed': [], 'assumed': []},
             'numeric': {'accepted': cases, 'rejected': 0, 'failures': fails[:10], 'concolic_agree': 0, 'encoder_mismatches': [],
-                        'samples': [{'systems': 'Cassegrain / Gregorian'}]}, 'wall_s': time.time() - t0}
+                        'samples': [{'systems': 'Cassegrain / Gregorian / immersed ellipsoid'}]}, 'wall_s': time.time() - t0}
 
 
 contract('C06.runtime.two_mirror', ['optiland/optic.py:Optic.trace', 'optiland/rays/ray_generator.py:RayGenerator._get_starting_z_offset',
